@@ -236,6 +236,45 @@ def _typed_sequence(ctx: Ctx, model, base):
                  f"list")
 
 
+    # what the public mutators add is what the getter - and therefore as_bytes() - returns
+    ctx.rule("C02-R10", "DefinedMessage: AVPs added through append_avp() / the avps setter are part of "
+                        "what the avps getter returns in every state of the message", floor=2)
+    if dm is not None and getter is not None:
+        g_ = cfg_of(getter)
+        at_ = Atomizer(model, base, dm)
+        # lists the getter can return without `_additional_avps`, and under which condition
+        alone = []
+        for n in g_.nodes:
+            if n.kind == "stmt" and isinstance(n.ast, ast.Return) and n.ast.value is not None \
+                    and "_additional_avps" not in ast.unparse(n.ast.value):
+                alone.append((n, must_facts(g_, at_, n)))
+        for mut_name, mut in (("append_avp", dm.methods.get("append_avp")), ("avps.setter", dm.setters.get("avps"))):
+            cons_m = f"DefinedMessage.{mut_name}:reaches-encoded-list"
+            ctx.inst(cons_m)
+            if mut is None:
+                continue
+            gm = cfg_of(mut)
+            atm = Atomizer(model, base, dm)
+            for n in gm.nodes:
+                if n.kind != "stmt":
+                    continue
+                writes_add = any("_additional_avps" in A.dotted(t) for t in n.stores()) or any(
+                    isinstance(c.func, ast.Attribute) and "_additional_avps" in A.dotted(c.func.value)
+                    for c in n.calls())
+                if not writes_add:
+                    continue
+                fm = must_facts(gm, atm, n)
+                for rn, fr in alone:
+                    # the getter returns a list without the additional AVPs under fr; the mutator
+                    # writes them under fm: a violation unless the two conditions exclude each other
+                    excl = any((a[0], a[1], a[2], not a[3]) in fm for a in fr)
+                    if not excl:
+                        ctx.fail(cons_m, gm.loc(n), f"`{n.text(60)}` stores into _additional_avps, which the "
+                                 f"avps getter leaves out when it returns `{ast.unparse(rn.ast.value)}` "
+                                 f"({sorted(map(str, fr))[:2]}): for a message decoded with plain_msg=True "
+                                 f"(it keeps the received list) the added AVPs are silently missing from "
+                                 f"as_bytes()")
+                        break
     from . import c03
     ctx.include(c03.run, {"C03-R5"}, "C02-R9",
                 "the attribute lists a typed constructor decodes repeated AVPs into are distinct "
@@ -609,6 +648,29 @@ def _search(ctx: Ctx, model, base, msg):
             ctx.fail(cons + "#store", fa.loc(), "search results are not cached under the path key")
         if any(isinstance(n, ast.Global) for n in ast.walk(fa.node)) or "self." not in ast.unparse(st[0].targets[0] if st else fa.node):
             ctx.fail(cons + "#scope", fa.loc(), "the search cache is not per message")
+        # every other input of the search is either part of the key or keeps the cache out of
+        # play: the cache is read and written only where such a parameter has its default
+        cons_i = "Message.find_avps:cache-key#inputs"
+        ctx.inst(cons_i)
+        vararg = fa.node.args.vararg.arg if fa.node.args.vararg else None
+        others = [a.arg for a in fa.node.args.args[1:] + fa.node.args.kwonlyargs if a.arg != vararg]
+        atf = Atomizer(model, base, msg)
+        cache_nodes = [n for n in gf.nodes if n.kind in ("stmt", "test") and n.ast is not None
+                       and "__find_cache" in n.text(300) and n is not None
+                       and not (n.kind == "stmt" and isinstance(n.ast, ast.Assign)
+                                and A.dotted(n.ast.targets[0]) == "self.__find_cache")]
+        for prm in others:
+            used = any(isinstance(x, ast.Name) and x.id == prm for x in ast.walk(fa.node))
+            if not used or prm in ast.unparse(keydef[0].value):
+                continue
+            for cn in cache_nodes:
+                fx = must_facts(gf, atf, cn)
+                if (prm, "is", None, True) not in fx and (prm, "truthy", None, False) not in fx:
+                    ctx.fail(cons_i, gf.loc(cn), f"the search cache (`{cn.text(50)}`) is used although the "
+                             f"result also depends on `{prm}`, which is not part of the key: a search of "
+                             f"another AVP list returns - and stores - results of the message's own "
+                             f"tree or of an earlier list")
+                    break
         cache_attr = None
         if st:
             t0 = [t for t in st[0].targets if isinstance(t, ast.Subscript)][0]
